@@ -221,12 +221,13 @@ class LDAWrapper(LinearSolver):
                 # Remove all previous components that are already in the database (orthogonalize)
                 xadd = xnew[isel, i]
                 badd = (A @ xnew[..., i])[isel, ...]
+                bnrm0 = np.linalg.norm(badd)
                 for x, b in zip(x_data, b_data):
                     beta = badd @ b.conj() / (b.conj() @ b)
                     badd = badd - beta * b  # Not in-place: a real vector may need a complex correction
                     xadd = xadd - beta * x
                 bnrm = np.linalg.norm(badd)
-                if not np.isfinite(bnrm) or bnrm == 0:
+                if not np.isfinite(bnrm) or bnrm <= self.tol * bnrm0:  # (Nearly) dependent: nothing new to store
                     continue
                 badd /= bnrm
                 xadd /= bnrm
